@@ -24,7 +24,8 @@ import lib, troute
 
 MODULE = "ImathVerif.Props.C13"
 DRV = os.path.join(lib.LEAN, ".lake", "build", "bin", "drv_boxt")
-IMPORTS = ["ImathVerif.Props.C13"]
+IMPORTS = ["ImathVerif.Gen.C13Box", "ImathVerif.Gen.C13Interval", "ImathVerif.Gen.C13Algo", "ImathVerif.Lemmas.C13Algo",
+           "ImathVerif.Lemmas.BoxTransformLemmas"]
 OPENS = ["ImathVerif", "ImathVerif.C13", "ImathVerif.BoxTransform"]
 
 SHAPES = ["Interval", "Box2", "Box3", "Box4"]
@@ -216,6 +217,12 @@ def run(chk):
     report_laws(chk, "random", "%s random %d %d" % (rel, chk.seed, 2000000 if chk.thorough else 200000), rnd[0], rnd[1], rnd[2], rnd[3], RANDOM_KEYS)
     report_laws(chk, "transform", "%s transform %d %d" % (rel, chk.seed, 40000 if chk.thorough else 4000), trn[0], trn[1], trn[2], trn[3], TRANSFORM_KEYS)
     chk.exhaustive = True
+    # replays of the kernel-checked witnesses of the FALSE statements on the real code (informational)
+    wit = [l[8:] for res in (members, trn) for l in res[6].split("\n") if l.startswith("WITNESS ")]
+    chk.extra["lean_witnesses_replayed_on_the_real_code"] = wit
+    for l in wit:
+        if "<int>" in l and ("Box<Vec3>" in l or "Interval" in l) or "Box<Vec3<double>>" in l:
+            chk.sample({"witness": l}, cap=16)
     for k, v in trn[4].items():
         chk.residues[k] = v
     # H-route tie: model = real code on every arithmetic-exact case, all four overloads
